@@ -713,14 +713,20 @@ func seedStream(seed int64, k int) []uint64 {
 }
 
 func (prop) Run(line string) core.Outcome {
-	if strings.HasPrefix(line, "prx ") {
+	if strings.HasPrefix(line, "prx ") || strings.HasPrefix(line, "key ") || strings.HasPrefix(line, "ck ") {
 		var f []string
 		for _, p := range strings.Split(line, " ") {
 			if p != "" {
 				f = append(f, p)
 			}
 		}
-		return runProxy(f)
+		switch f[0] {
+		case "prx":
+			return runProxy(f)
+		case "key":
+			return runKey(f)
+		}
+		return runCk(f)
 	}
 	c, ok := parseCase(line)
 	if !ok {
